@@ -65,6 +65,9 @@ func sharedSchema() *jsonapi.Schema {
 	// a type without any field: both maps nil
 	must(s.AddType(jsonapi.Type{Name: "t5"}))
 	must(s.AddType(*softType("t2", docFields["t2"], kindMap{})))
+	// a type declared by hand: its relationship does not say which type it belongs to (FromType empty)
+	must(s.AddType(jsonapi.Type{Name: "t6", Attrs: map[string]jsonapi.Attr{},
+		Rels: map[string]jsonapi.Rel{"up": {FromName: "up", ToOne: true, ToType: "t2"}}}))
 	// a type declared the short way: AddType(Type{Name}) then AddAttr leaves its Rels map nil
 	must(s.AddType(jsonapi.Type{Name: "t4"}))
 	must(s.AddAttr("t4", jsonapi.Attr{Name: "d", Type: jsonapi.AttrTypeString}))
